@@ -105,6 +105,8 @@ def find_lexicons(
     found = False
     for specifier in lexicon.split():
         limit = '-1' if '*' in specifier else '1'
+        # a single result is the most recently added lexicon
+        order = 'ASC' if '*' in specifier else 'DESC'
         if ':' not in specifier:
             specifier += ':*'
         query = f'''
@@ -113,6 +115,7 @@ def find_lexicons(
               FROM lexicons
              WHERE id || ":" || version GLOB :specifier
                AND (:language ISNULL OR language = :language)
+             ORDER BY rowid {order}
              LIMIT {limit}
         '''
         params = {'specifier': specifier, 'language': lang}
